@@ -298,7 +298,10 @@ func copyVal(v Value) Value {
 	return v
 }
 
-type EngineError struct{ msg string }
+type EngineError struct {
+	msg     string
+	located bool
+}
 
 func (e *EngineError) Error() string { return e.msg }
 func engineErr(s string) *EngineError { return &EngineError{msg: s} }
